@@ -346,7 +346,7 @@ class BlockProcessor:
             logger.info('chain reorg detected')
         else:
             logger.info(f'faking a reorg of {count:,d} blocks')
-        await self.flush(True)
+        await self.run_with_lock(self.flush(True))
 
         start, hex_hashes = await self._reorg_hashes(count)
         pairs = reversed(list(enumerate(hex_hashes, start=start)))
@@ -719,7 +719,7 @@ class BlockProcessor:
     async def on_caught_up(self):
         was_first_sync = self.state.first_sync
         self.state.first_sync = False
-        await self.flush(True)
+        await self.run_with_lock(self.flush(True))
         if self.caught_up:
             # Flush everything before notifying as client queries are performed on the DB
             await self.notifications.on_block(self.touched, self.state.height)
